@@ -130,7 +130,7 @@ theorem C33_shutdown_trace (cfg : Cfg) (ls : List Label) (s : St)
 
 /-- non-vacuity: the idle shutdown is reachable (start-up grace 480 elapses with no connection) -/
 example : ((ts Shape.repaired ⟨some 3, 480, none⟩).run
-    [.tick 480, .fire 0, .callback 0, .acceptTimeout, .check true]).isSome = true := by decide
+    [.tick 480, .fire 0, .cbRead 0, .callback 0, .acceptTimeout, .check true]).isSome = true := by decide
 
 end Loop
 
@@ -138,10 +138,13 @@ namespace Launch
 
 /-! ### the obligations of (a) -/
 
-/-- the installed `filelock` re-checks `st_nlink` after `flock`, and `serve_unix` (like `serve_tcp`) starts listening BEFORE
+/-- the lock file of a launch is keyed by the socket itself (a sibling of the socket, so every spelling of its path resolves
+to one lock inode), the installed `filelock` re-checks `st_nlink` after `flock`, and `serve_unix` (like `serve_tcp`) starts listening BEFORE
 it announces the socket through `on_bound` — the announcement is what `_spawn_worker`, hence `launch`, returns on
 (both extracted from the sources) -/
-theorem C33_launch_shape : LShape.extracted.nlinkCheck = true ∧ LShape.extracted.listenFirst = true := by decide
+theorem C33_launch_shape :
+    LShape.extracted.nlinkCheck = true ∧ LShape.extracted.listenFirst = true ∧ LShape.extracted.lockBySocket = true := by
+  decide
 
 /-- `serve_tcp` has the same start-up order (bind → listen → announce) -/
 theorem C33_tcp_startup_order : Gen.C33.tcpListenBeforeAnnounce = true := by decide
@@ -159,7 +162,7 @@ file while holding it: two processes that are both inside (lock inode verified, 
 are the same process -/
 theorem C33_lock_mutex (idle : Nat) (s : St) (hr : (ts LShape.extracted idle).Reachable s) (t t' : Tid) (g g' : Nat)
     (ht : effective (s.pc t) = some g) (ht' : effective (s.pc t') = some g') : t = t' :=
-  (inv_reachable (sh := LShape.extracted) C33_launch_shape.1 C33_launch_shape.2 idle s hr).mutex ht ht'
+  (inv_reachable (sh := LShape.extracted) C33_launch_shape.1 C33_launch_shape.2.1 C33_launch_shape.2.2 idle s hr).mutex ht ht'
 
 /-- **C33_single_spawn** (partial: excluded are the runs in which a worker's exit-time `unlink` removed the socket of
 its successor — ghost flag `clobbered`, see `Findings/C33.lean`): in every reachable state at most one worker of the
@@ -170,7 +173,7 @@ theorem C33_single_spawn_partial (idle : Nat) (s : St) (hr : (ts LShape.extracte
     (∀ w w', isAccepting (s.ws w) = true → isAccepting (s.ws w') = true → w = w') ∧
     (∀ w, isAccepting (s.ws w) = true → s.sock = some w) ∧
     (Spec.LMon.run idle s.hist).badSpawn = false := by
-  have hi := inv_reachable (sh := LShape.extracted) C33_launch_shape.1 C33_launch_shape.2 idle s hr
+  have hi := inv_reachable (sh := LShape.extracted) C33_launch_shape.1 C33_launch_shape.2.1 C33_launch_shape.2.2 idle s hr
   refine ⟨?_, hi.accSock hc, ?_⟩
   · intro w w' hw hw'
     have h1 := hi.accSock hc w hw
@@ -183,14 +186,14 @@ worker — whenever it returned less than `idle` after its decision (its success
 worker it spawned). -/
 theorem C33_accepting_partial (idle : Nat) (s : St) (hr : (ts LShape.extracted idle).Reachable s)
     (hc : s.clobbered = false) : (Spec.LMon.run idle s.hist).badRet = false := by
-  have hi := inv_reachable (sh := LShape.extracted) C33_launch_shape.1 C33_launch_shape.2 idle s hr
+  have hi := inv_reachable (sh := LShape.extracted) C33_launch_shape.1 C33_launch_shape.2.1 C33_launch_shape.2.2 idle s hr
   rw [← hi.monHist]; exact hi.badRet hc
 
 /-- `C33_accepting` at the returning step itself -/
 theorem C33_accepting_step (idle : Nat) (s : St) (hr : (ts LShape.extracted idle).Reachable s) (hc : s.clobbered = false)
     (t : Tid) (t0 : Nat) (hpc : s.pc t = .released (some t0)) (hlt : s.now < t0 + idle) :
     pathAccepting s = true := by
-  have hi := inv_reachable (sh := LShape.extracted) C33_launch_shape.1 C33_launch_shape.2 idle s hr
+  have hi := inv_reachable (sh := LShape.extracted) C33_launch_shape.1 C33_launch_shape.2.1 C33_launch_shape.2.2 idle s hr
   obtain ⟨_, h2⟩ := hi.decI hc t t0 (by rw [hpc]; rfl)
   obtain ⟨w, q, hs, hw, _⟩ := h2 hlt
   exact pathAccepting_iff.2 ⟨w, hs, by rw [hw]; rfl⟩
@@ -209,12 +212,12 @@ theorem C33_launcher_trace (idle : Nat) (ls : List Label) (s : St)
 spawn for the endpoint until the worker has announced itself — which, by `C33_launch_shape`, is after it listens -/
 theorem C33_startup_covered (idle : Nat) (s : St) (hr : (ts LShape.extracted idle).Reachable s) (w : Wid)
     (hw : inStartup (s.ws w) = true) : ∃ t g, s.pc t = .waiting g w ∧ effective (s.pc t) = some g := by
-  obtain ⟨t, g, hpc⟩ := (inv_reachable (sh := LShape.extracted) C33_launch_shape.1 C33_launch_shape.2 idle s hr).startI w hw
+  obtain ⟨t, g, hpc⟩ := (inv_reachable (sh := LShape.extracted) C33_launch_shape.1 C33_launch_shape.2.1 C33_launch_shape.2.2 idle s hr).startI w hw
   exact ⟨t, g, hpc, by rw [hpc]; rfl⟩
 
 /-- non-vacuity: launcher 0 spawns worker 0 (check, clear, bind, listen, announce) and returns, launcher 1 finds it by
 probe and returns -/
-example : (((ts ⟨true, true⟩ 8).run
+example : (((ts ⟨true, true, true⟩ 8).run
     [.begin 0 .launch, .begin 1 .launch, .lockOpen 0, .lockOpen 1, .lockFlock 0 true, .lockFlock 1 false, .lockVerify 0 true,
      .probe 0 false, .unlinkStale 0 true, .writeMeta 0, .spawn 0 0, .wCheck 0 true, .wClear 0, .wBind 0, .wListen 0,
      .wAnnounce 0, .spawnReady 0, .release 0, .lockOpen 1, .lockFlock 1 true,
